@@ -79,7 +79,7 @@ func (x *Exec) nodeAfterCommit(appHash []byte) {
 			if ns.blk.afterRestart && a.GasWanted == 0 && b.GasWanted == 0 && a.GasUsed != b.GasUsed {
 				a.GasUsed, b.GasUsed = 0, 0
 				if bytes.Equal(respBytes(a), respBytes(b)) {
-					x.Flag("C10-restart-gas-sdk-capability", fmt.Sprintf("height %d tx %d: GasUsed of a transaction refused before the ante handler differs in the first block after a restart: %d on the restarted node, %d on a node that never stopped",
+					x.Flag("C10-restart-gas-sdk-beginblock", fmt.Sprintf("height %d tx %d: GasUsed of a transaction refused before the ante handler differs in the first block after a restart: %d on the restarted node, %d on a node that never stopped",
 						x.C.Height, i, ns.blk.res[i].GasUsed, r.GasUsed))
 					continue
 				}
